@@ -2,7 +2,10 @@
 
 A case is a whole file (list of lines, optional overriding scheme); the
 implementation side reads it once in Silent mode (all errors collected) and
-once in Strict mode (the first error raised) through MafReader's public API.
+once in Strict mode (the first error raised) through MafReader's public API:
+either MafReader(lines=...) or, for files without CR/LF inside a line, the
+lines written to a scratch file (plain or .gz, LF or CRLF endings) under
+/verif/work and opened with MafReader.reader_from(path).
 Oracle (independent of the model): the physical line numbers are recomputed in
 python from the file shape - pragma line k is line k and its category is
 re-derived from the text by a classifier written from the property statement;
@@ -145,11 +148,37 @@ def corpus():
     ]
 
 
+def _blank_line_files():
+    """files with empty lines in every region, to be read back from disk"""
+    out = []
+    for hl in ([], ["#version v1"], ["#version v1", "#k"]):
+        for tail in (["a\tb", "", "1\t2", "3"], ["a\tb", "1\t2", "", "", "3\t4\t5"], ["", "a\tb", "1"],
+                     ["a\tb", "1\t2", ""], ["a\tb", "", ""], ["a\ta", "", "1"]):
+            out.append({"lines": hl + tail, "override": None,
+                        "shape": {"stream": "blank-lines", "H": len(hl), "col": True, "data": len(tail) - 1,
+                                  "defect": "data+blank"}})
+    return out
+
+
+def _with_channel(cases):
+    """every file that survives being written to disk is read through one of the three channels"""
+    out = []
+    for k, c in enumerate(cases):
+        ch = "lines"
+        if R.file_safe(c["lines"]) and c.get("override") is None:
+            ch = ("lines", "path", "gz")[k % 3]
+        if c["shape"].get("stream") == "blank-lines":
+            ch = ("path", "gz")[k % 2]
+        out.append(dict(c, channel=ch))
+    return out
+
+
 def generate(rng, n):
-    out = _multi_defect() + _grid() + _typed_grid() + [c for c in R.typed_special_cases() if c["shape"]["defect"] == "format-text"]
+    out = (_blank_line_files() + _multi_defect() + _grid() + _typed_grid()
+           + [c for c in R.typed_special_cases() if c["shape"]["defect"] == "format-text"])
     while len(out) < n:
         out.append(R.gen_reader_case(rng, rng.choice(["valid", "defect", "defect", "adversarial"])))
-    return out
+    return _with_channel(out)
 
 
 def shrink(case):
@@ -161,7 +190,10 @@ def to_model(case):
 
 
 def run_impl(case):
-    return {m: R.impl_reader(case["lines"], m, case["override"]) for m in ("Silent", "Strict")}
+    ch = case.get("channel", "lines")
+    if ch != "lines" and not R.file_safe(case["lines"]):
+        ch = "lines"        # a shrunk or edited case that no longer fits a file
+    return {m: R.impl_reader(case["lines"], m, case["override"], ch) for m in ("Silent", "Strict")}
 
 
 def from_model(case, sx):
@@ -192,7 +224,18 @@ def oracle(case, obs):
     if col is None and not any(e[0] == 12 for e in init_errs):
         out.append("missing-column-names-not-reported")
     total = list(init_errs)
+    # the j-th record is the parse of the j-th data line (otherwise its number is the number of some other text)
+    if s["end"] is None and len(s["recs"]) != len(data):
+        out.append("records-do-not-match-data-lines %d records for %d lines" % (len(s["recs"]), len(data)))
     for j, r in enumerate(s["recs"]):
+        if j < len(data):
+            fields = data[j].rstrip("\r\n").split("\t")
+            texts = [sl[2] for sl in r["slots"] if sl is not None]
+            bad_count = any(e[0] == 17 for e in r["errs"])
+            if bad_count and len(fields) == len((s["init"][1]["scheme"] or [0, 0, 0, []])[3]):
+                out.append("count-error-numbered-%s-but-that-line-has-the-right-count" % (r["errs"][0][1],))
+            if (not r["errs"]) and s["init"][1]["scheme"] and s["init"][1]["scheme"][2] and texts != fields:
+                out.append("record-%d-is-not-the-parse-of-data-line-%d" % (j + 1, j + 1))
         phys = H + 1 + (j + 1)
         for e in r["errs"]:
             if e[1] != phys:
@@ -235,7 +278,7 @@ def classify(case, obs):
         return "%s/error" % sh.get("stream")
     d = sh.get("defect")
     kind = "none" if d is None else d.split("@")[0].split("+")[0]
-    return "%s/H=%s/col=%s/data=%s/defect=%s" % (sh.get("stream"), sh.get("H"), sh.get("col"),
+    return "%s/%s/H=%s/col=%s/data=%s/defect=%s" % (case.get("channel", "lines"), sh.get("stream"), sh.get("H"), sh.get("col"),
                                                   "0" if not sh.get("data") else ("1-2" if sh.get("data") < 3 else "3+"), kind)
 
 
